@@ -296,7 +296,7 @@ fn check_write_read(rep: &mut Report, rng: &mut Rng, pool: &[RName]) {
 }
 
 pub fn run(ctx: &Ctx, rep: &mut Report) {
-    let n = if ctx.is_miri() { ctx.cases(24, 960) } else { ctx.cases(40_000, 1_500_000) };
+    let n = if ctx.is_miri() { ctx.cases(24, 960) } else { ctx.cases(40_000, 400_000) };
     for case in ctx.case_range(n) {
         rep.current_case = case;
         let mut rng = ctx.rng("c18", case);
